@@ -235,9 +235,14 @@ def evaluate_cells(cells, targets):
 # ---------------------------------------------------------------------------
 # TLC runs
 
+# the default of one GC thread and several JIT threads per core makes short TLC
+# runs three times slower on a busy machine
+JVM = {'JAVA_TOOL_OPTIONS': '-XX:ParallelGCThreads=2 -XX:CICompilerCount=2'}
+
+
 def run_tlc(v, module, cfg, spec_dir, label, library=None, workers=8):
     res = tlc.run(module, cfg, spec_dir=spec_dir, workers=workers, timeout=1500,
-                  library=library, heap='4g')
+                  library=library, heap='4g', env=JVM)
     if not res.ok:
         raise tlc.MachineryFailure(
             f'Operators model ({label}) violates {res.violated}:\n' + res.stdout[-2500:])
@@ -246,7 +251,7 @@ def run_tlc(v, module, cfg, spec_dir, label, library=None, workers=8):
     if len(vectors) != res.distinct:
         # interleaved PrintT lines: repeat single-threaded
         res = tlc.run(module, cfg, spec_dir=spec_dir, workers=1, timeout=1500,
-                      library=library, heap='4g')
+                      library=library, heap='4g', env=JVM)
         vectors = res.json
         if not res.ok or len(vectors) != res.distinct:
             raise tlc.MachineryFailure(
